@@ -689,6 +689,28 @@ fn exotic() -> Vec<Vec<Stmt>> {
         v.push(vec![Stmt::Until { cond: e(2.0), body: fill(a, 10.0) }, say(3.0)]);
         v.push(vec![Stmt::Function { name: Name::Simple("f".into()), params: vec![Name::Simple("p".into())], body: fill(a, 10.0) }, say(3.0)]);
     }
+    // left-nested operator chains, list tails, argument lists and subscript chains of n operands
+    for n in [8usize, 9, 15, 16, 17, 18, 19, 32, 33, 34, 65] {
+        let name = |i: usize| Expr::Prim(Prim::Ident(Ident::Name(Name::Simple(["x", "y", "z"][i % 3].into()))));
+        let mut chain = name(0);
+        for i in 1..n {
+            chain = Expr::Bin(if i % 2 == 0 { BinOp::Plus } else { BinOp::Times }, Box::new(chain), vec![name(i)]);
+        }
+        v.push(vec![Stmt::Output(chain.clone()), say(1.0)]);
+        v.push(vec![Stmt::Output(Expr::Bin(BinOp::Plus, Box::new(e(0.0)), (0..n).map(name).collect()))]);
+        v.push(vec![Stmt::Push { array: x(), value: Some(PushRhs::List((0..n).map(name).collect())) }]);
+        v.push(vec![Stmt::Output(Expr::Prim(Prim::Call(Name::Simple("f".into()), (0..n).map(name).collect())))]);
+        let mut sub = x();
+        for i in 0..n {
+            sub = Prim::Sub(Box::new(sub), Box::new(Prim::Lit(Lit::Num(i as f64))));
+        }
+        v.push(vec![Stmt::Output(Expr::Prim(sub))]);
+        let mut right = name(0);
+        for i in 1..n {
+            right = Expr::Bin(BinOp::Minus, Box::new(name(i)), vec![right]);
+        }
+        v.push(vec![Stmt::Output(right)]);
+    }
     // nesting depth 2 with every block slot used
     v.push(vec![Stmt::Function {
         name: Name::Simple("f".into()),
